@@ -27,7 +27,7 @@ func init() {
 		return &ActionSpec{
 			ID: id, Module: "Txn",
 			MCCfgs: []string{"TxnMC_q.cfg", "TxnMC_env_q.cfg"}, MCThor: []string{"TxnMC.cfg", "TxnMC_env.cfg"}, GenCfgs: gens,
-			NSim: [2]int{400, 3000}, NRand: [2]int{40, 400},
+			NSim: [2]int{400, 2000}, NRand: [2]int{40, 400},
 			Setup: txnSetup, Exec: txnExec, Random: nil, Sig: txnSig, Assume: assume, MCWorkers: 12,
 		}
 	}
